@@ -395,6 +395,19 @@ class BaseClientHandler:
         """
         return any("EXPUNGE" in x for x in self.pending_notifications)
 
+    ####################################################################
+    #
+    def _no_expunges_while_waiting(self, cmd: IMAPClientCommand) -> None:
+        """
+        A FETCH, STORE or SEARCH that uses message sequence numbers checked
+        for pending EXPUNGEs before it queued up on the mailbox. If another
+        client's EXPUNGE ran while it waited for its turn, its sequence
+        numbers mean something else now and the client has not been told.
+        Same answer as if the EXPUNGE had been there from the start.
+        """
+        if not cmd.uid_command and self.pending_expunges():
+            raise No("There are pending EXPUNGEs.")
+
     ##################################################################
     #
     async def send_pending_notifications(self) -> None:
@@ -1414,6 +1427,7 @@ class Authenticated(BaseClientHandler):
                 raise No("There are pending untagged responses")
 
         async with cmd.ready_and_okay(self.mbox):
+            self._no_expunges_while_waiting(cmd)
             try:
                 results = await self.mbox.search(
                     cmd.search_key, cmd.uid_command, cmd.timeout_cm
@@ -1477,6 +1491,7 @@ class Authenticated(BaseClientHandler):
         self.fetch_while_pending_count = 0
         try:
             async with cmd.ready_and_okay(self.mbox):
+                self._no_expunges_while_waiting(cmd)
                 msg_set = (
                     sorted(cmd.msg_set_as_set) if cmd.msg_set_as_set else []
                 )
@@ -1572,6 +1587,7 @@ class Authenticated(BaseClientHandler):
         #
         try:
             async with cmd.ready_and_okay(self.mbox):
+                self._no_expunges_while_waiting(cmd)
                 msg_set = (
                     sorted(cmd.msg_set_as_set) if cmd.msg_set_as_set else []
                 )
